@@ -56,6 +56,57 @@ impl VerifPool {
         Ok(Self { pool })
     }
 
+    /// As [`VerifPool::new`], with the connection's `connect_timeout` (which also bounds the pool's `USE`)
+    /// and the reconnect policy chosen by the caller.
+    pub fn new_with(
+        addr: SocketAddr,
+        pool_size: PoolSize,
+        keyspace: Option<(&str, bool)>,
+        can_use_shard_aware_port: bool,
+        keepalive: Option<(Duration, Duration)>,
+        connect_timeout: Option<Duration>,
+        reconnect_policy: Option<Arc<dyn crate::policies::reconnect::ReconnectPolicy>>,
+    ) -> Result<Self, String> {
+        let keyspace = match keyspace {
+            None => None,
+            Some((name, cs)) => {
+                Some(VerifiedKeyspaceName::new(name.to_owned(), cs).map_err(|e| e.to_string())?)
+            }
+        };
+        let mut connection_config = cv::connection_config();
+        if let Some((interval, timeout)) = keepalive {
+            connection_config.keepalive_interval = Some(interval);
+            connection_config.keepalive_timeout = Some(timeout);
+        }
+        if let Some(t) = connect_timeout {
+            connection_config.connect_timeout = t;
+        }
+        let pool_config = PoolConfig {
+            connection_config,
+            pool_size,
+            can_use_shard_aware_port,
+            reconnect_policy: reconnect_policy.unwrap_or_else(|| {
+                Arc::new(crate::policies::reconnect::ConstantReconnectPolicy::new(
+                    Duration::from_millis(50),
+                ))
+            }),
+        };
+        let (pool_empty_notifier, _) = mpsc::channel(1);
+        let endpoint =
+            UntranslatedEndpoint::ContactPoint(crate::cluster::node::ResolvedContactPoint {
+                address: addr,
+            });
+        let pool = NodeConnectionPool::new(
+            endpoint,
+            &pool_config,
+            None,
+            keyspace,
+            pool_empty_notifier,
+            Metrics::new(),
+        );
+        Ok(Self { pool })
+    }
+
     pub async fn wait_until_initialized(&self) {
         self.pool.wait_until_initialized().await
     }
